@@ -67,10 +67,16 @@ End Engine.
 
 (* ---- the four tables ------------------------------------------------------------------------------ *)
 
-(* RichMrgnEditor.add_locations: ids 1..MAX_LOCATIONS except Anywhere; break when full; carried first *)
+(* ids not carried by any used switch *)
+Definition carried_ids (reqs : list request) : list N :=
+  flat_map (fun r => match r with RCarry k => [k] | _ => [] end) reqs.
+
+(* RichMrgnEditor.add_locations: every index - of the locations already in the section and of those to add -
+   is range-checked up front; then ids 1..MAX_LOCATIONS except Anywhere; break when full; carried first *)
 Definition add_locations (existing : list N) (reqs : list request) : result (list outcome) :=
-  engine true true (Some (1, MAX_LOCATIONS)) (carried_first reqs) existing
-         (free_ids 1 MAX_LOCATIONS [ANYWHERE_LOCATION_ID] existing).
+  if existsb (fun k => (k <? 1) || (MAX_LOCATIONS <? k)) (existing ++ carried_ids reqs) then Raise ValueError
+  else engine true true (Some (1, MAX_LOCATIONS)) (carried_first reqs) existing
+              (free_ids 1 MAX_LOCATIONS [ANYWHERE_LOCATION_ID] existing).
 
 (* RichUprpEditor.add_cuwp_slots: ids 1..MAX_CUWP_SLOTS; raise when full; carried first *)
 Definition add_cuwp_slots (existing : list N) (reqs : list request) : result (list outcome) :=
@@ -86,9 +92,6 @@ Definition add_switches (existing : list N) (reqs : list request) : result (list
 
 (* RichSwnmRebuilder: ids not carried by any used switch; a carried index always takes its slot;
    an index >= MAX_SWITCHES is an IndexError on the 256-element list *)
-Definition carried_ids (reqs : list request) : list N :=
-  flat_map (fun r => match r with RCarry k => [k] | _ => [] end) reqs.
-
 Definition rebuild_swnm (reqs : list request) : result (list outcome) :=
   if existsb (fun k => MAX_SWITCHES <=? k) (carried_ids reqs) then
     (* IndexError at the first out-of-range carried index, or ValueError earlier if ids run out first;
